@@ -1,10 +1,10 @@
-import PysnarkModel.Lemmas.BranchBasic
+import PysnarkModel.Lemmas.BranchLive
 /-!
 # Block branching: what holds for every completed run, live or under a false guard
 
-After each statement the stack of open contexts is what it was before, and every variable that
-was bound is still bound.  (Needed to reason about the parts of a program that run under a false
-guard, where nothing can be said about values.)
+After each statement the stack of open contexts is what it was before, every variable that was
+bound is still bound, and the resolution of the tracer is what it was.  (Needed to reason about the
+parts of a program that run under a false guard, where nothing can be said about values.)
 -/
 namespace Pysnark
 
@@ -70,7 +70,7 @@ theorem has_setAll (vals nd : Vals) (x : Nat) : (vals.setAll nd).has x = (nd.has
   unfold Vals.has
   cases h : (nd.get? x).isSome <;> simp [h]
 
-theorem has_set (vals : Vals) (x y : Nat) (o : Obj) : (vals.set x o).has y = (decide (x = y) || vals.has y) := by
+theorem has_set (vals : Vals) (x y : Nat) (o : TVal) : (vals.set x o).has y = (decide (x = y) || vals.has y) := by
   unfold Vals.has
   rw [Vals.get?_set]
   by_cases h : x = y <;> simp [h]
@@ -98,7 +98,7 @@ theorem exit_struct {ctx ctx' : BCtx} {bv bv' : BV} {s s' : St} (h : ctx.exit bv
     rw [mergeBak_has hb x, has_removeAll]
 
 theorem enter_struct {ctx ctx' : BCtx} {c : LinComb} {bv : BV} {s s' : St} (h : ctx.enter c bv s = .ok (ctx', s')) :
-    ctx'.isIf = ctx.isIf ∧ ctx'.bak = bv.vals ∧ ctx'.cond = c ∧ ctx'.icond = ctx.icond ∧
+    ctx'.isIf = ctx.isIf ∧ ctx'.bak = bv.vals.backup ∧ ctx'.cond = c ∧ ctx'.icond = ctx.icond ∧
     ctx'.nodefvals = ctx.nodefvals := by
   obtain ⟨og, _, rfl⟩ := enter_ok h
   exact ⟨rfl, rfl, rfl, rfl, rfl⟩
@@ -127,7 +127,7 @@ theorem ChainDom.enter {D : Nat → Prop} {ctx ctx' : BCtx} {c : LinComb} {bv : 
     (hv : ∀ x, D x → bv.vals.has x = true) (hn : ∀ nd, ctx.nodefvals = some nd → ∀ x, D x → nd.has x = false)
     (h : ctx.enter c bv s = .ok (ctx', s')) : ChainDom D ctx' bv.vals := by
   obtain ⟨_, hb, _, _, hnd⟩ := enter_struct h
-  exact ⟨hv, fun x hx => by rw [hb]; exact hv x hx, fun nd h' => hn nd (hnd ▸ h')⟩
+  exact ⟨hv, fun x hx => by rw [hb, Vals.has_backup]; exact hv x hx, fun nd h' => hn nd (hnd ▸ h')⟩
 
 theorem ChainDom.mono {D : Nat → Prop} {ctx : BCtx} {vals vals' : Vals} (hd : ChainDom D ctx vals)
     (h : ∀ x, vals.has x = true → vals'.has x = true) : ChainDom D ctx vals' :=
@@ -180,145 +180,494 @@ theorem TopDom.push {bs bs' : BSt} {cond : Val} {s s' : St}
   rcases h with h | h
   · obtain ⟨c, ctx, _, hn, rfl⟩ := bIf_ok h
     obtain ⟨ic, s1, og, _, _, rfl⟩ := ifNew_ok hn
-    exact ⟨rfl, _, rfl, ⟨fun x hx => hx, fun x hx => hx, fun nd h' => by cases h'⟩⟩
+    exact ⟨rfl, _, rfl, ⟨fun x hx => hx, fun x hx => by simp only [Vals.has_backup]; exact hx, fun nd h' => by cases h'⟩⟩
   · obtain ⟨c, ctx, _, hn, rfl⟩ := bWhilePush_ok h
     obtain ⟨og, _, rfl⟩ := whileNew_ok hn
-    exact ⟨rfl, _, rfl, ⟨fun x hx => hx, fun x hx => hx, fun nd h' => by cases h'⟩⟩
+    exact ⟨rfl, _, rfl, ⟨fun x hx => hx, fun x hx => by simp only [Vals.has_backup]; exact hx, fun nd h' => by cases h'⟩⟩
 
-theorem bindNew_struct {x : Nat} {v : Val} {bs bs' : BSt} {s s' : St} (h : bindNew x v bs s = .ok (bs', s')) :
-    bs'.stack = bs.stack ∧ ∀ y, bs.bv.vals.has y = true → bs'.bv.vals.has y = true := by
-  unfold bindNew at h
-  cases v <;> first | exact (raise_ok.mp h).elim | skip
-  obtain ⟨rfl, rfl⟩ := pure_ok' h
-  exact ⟨rfl, fun y hy => by simp only [has_set, hy, Bool.or_true]⟩
 
-theorem bindVar_struct {env : BEnv} {x : Nat} {e : BExpr} {v : Val} {bs bs' : BSt} {s s' : St}
-    (h : bindVar env x e v bs s = .ok (bs', s')) :
-    bs'.stack = bs.stack ∧ ∀ y, bs.bv.vals.has y = true → bs'.bv.vals.has y = true := by
-  unfold bindVar at h
-  cases hl : leafObj env bs.bv e with
-  | some o =>
-    simp only [hl] at h
+/-! ## the configuration part of the state (resolution) is never touched -/
+
+theorem mergeS_same {c : LinComb} {t f r : SVal} {n n' : Nat} {s s' : St}
+    (h : mergeS c t f n s = .ok ((r, n'), s')) : Same s s' := by
+  rcases mergeS_ok h with ⟨_, _, _, _, rfl⟩ | ⟨_, v, hv, _, _⟩
+  · exact Same.refl _
+  · exact (iteScalar_rep t.toVal_isS f.toVal_isS hv).1
+
+mutual
+theorem mergeT_same {c : LinComb} : ∀ {t f r : TVal} {n n' : Nat} {s s' : St},
+    mergeT c t f n s = .ok ((r, n'), s') → Same s s'
+  | .leaf a, .leaf b, r, n, n', s, s', h => by
+    obtain ⟨o, ho, _⟩ := mergeT_leaf_ok h
+    exact mergeS_same ho
+  | .node ts, .node fs, r, n, n', s, s', h => by
+    obtain ⟨rs, hrs, _⟩ := mergeT_node_ok h
+    exact mergeTL_same hrs
+  | .node ts, .leaf b, r, n, n', s, s', h => by unfold mergeT at h; exact (raise_ok.mp h).elim
+  | .leaf a, .node fs, r, n, n', s, s', h => by unfold mergeT at h; exact (raise_ok.mp h).elim
+theorem mergeTL_same {c : LinComb} : ∀ {ts fs rs : List TVal} {n n' : Nat} {s s' : St},
+    mergeTL c ts fs n s = .ok ((rs, n'), s') → Same s s'
+  | [], [], rs, n, n', s, s', h => by
+    obtain ⟨_, _, rfl⟩ := mergeTL_nil_ok h
+    exact Same.refl _
+  | t :: ts, f :: fs, rs, n, n', s, s', h => by
+    obtain ⟨r, n1, s1, rs', h1, h2, _⟩ := mergeTL_cons_ok h
+    exact (mergeT_same h1).trans (mergeTL_same h2)
+  | [], _ :: _, rs, n, n', s, s', h => by unfold mergeTL at h; exact (raise_ok.mp h).elim
+  | _ :: _, [], rs, n, n', s, s', h => by unfold mergeTL at h; exact (raise_ok.mp h).elim
+end
+
+theorem mergeBak_same {c : LinComb} {bak : Vals} : ∀ {vals rs : Vals} {n n' : Nat} {s s' : St},
+    mergeBak c bak vals n s = .ok ((rs, n'), s') → Same s s'
+  | [], rs, n, n', s, s', h => by
+    unfold mergeBak at h
+    obtain ⟨_, rfl⟩ := pure_ok' h
+    exact Same.refl _
+  | (y, t) :: rest, rs, n, n', s, s', h => by
+    obtain ⟨f, r, n1, s1, rs', _, hm, h3, _⟩ := mergeBak_cons_ok h
+    exact (mergeT_same hm).trans (mergeBak_same h3)
+
+theorem mergeNodef_same {c : LinComb} {vals : Vals} : ∀ {nd rs : Vals} {n n' : Nat} {s s' : St},
+    mergeNodef c vals nd n s = .ok ((rs, n'), s') → Same s s'
+  | [], rs, n, n', s, s', h => by
+    unfold mergeNodef at h
+    obtain ⟨_, rfl⟩ := pure_ok' h
+    exact Same.refl _
+  | (y, o) :: rest, rs, n, n', s, s', h => by
+    obtain ⟨t, r, n1, s1, rs', _, hm, h3, _⟩ := mergeNodef_cons_ok h
+    exact (mergeT_same hm).trans (mergeNodef_same h3)
+
+theorem exit_res {ctx ctx' : BCtx} {bv bv' : BV} {s s' : St} (h : ctx.exit bv s = .ok ((ctx', bv'), s')) :
+    s'.resolution = s.resolution := by
+  obtain ⟨s1, nd, n1, s2, vals, n2, hr, hnd, hb, _, _⟩ := exit_ok h
+  have r1 := restoreGuard_res hr
+  have r2 : s2.resolution = s1.resolution := by
+    rcases hnd with ⟨_, _, _, rfl⟩ | ⟨nd0, _, hm⟩
+    · rfl
+    · exact (mergeNodef_same hm).res
+  rw [(mergeBak_same hb).res, r2, r1]
+
+theorem enter_res {ctx ctx' : BCtx} {c : LinComb} {bv : BV} {s s' : St} (h : ctx.enter c bv s = .ok (ctx', s')) :
+    s'.resolution = s.resolution := by
+  obtain ⟨og, hg, _⟩ := enter_ok h
+  exact addGuard_res hg
+
+theorem ifNew_res {c : LinComb} {bv : BV} {ctx : BCtx} {s s' : St} (h : ifNew c bv s = .ok (ctx, s')) :
+    s'.resolution = s.resolution := by
+  obtain ⟨ic, s1, og, hn, hg, _⟩ := ifNew_ok h
+  rw [addGuard_res hg, (boolNot_val hn).1.res]
+
+theorem whileNew_res {c : LinComb} {bv : BV} {ctx : BCtx} {s s' : St} (h : whileNew c bv s = .ok (ctx, s')) :
+    s'.resolution = s.resolution := by
+  obtain ⟨og, hg, _⟩ := whileNew_ok h
+  exact addGuard_res hg
+
+theorem whileNext_res {ctx ctx' : BCtx} {nw : LinComb} {bv bv' : BV} {s s' : St}
+    (h : whileNext ctx nw bv s = .ok ((ctx', bv'), s')) : s'.resolution = s.resolution := by
+  obtain ⟨ctx1, s1, c, s2, he, ha, hen⟩ := whileNext_ok h
+  rw [enter_res hen, (andBB_val ha).1.res, exit_res (whileExit_ok he).1]
+
+theorem bWhileNext_res {cond : Val} {bs bs' : BSt} {s s' : St} (h : bWhileNext cond bs s = .ok (bs', s')) :
+    s'.resolution = s.resolution := by
+  obtain ⟨ctx, rest, c, ctx', bv', _, _, _, hw, _⟩ := bWhileNext_ok h
+  exact whileNext_res hw
+
+theorem bBreakif_res {cond : Val} {bs bs' : BSt} {s s' : St} (h : bBreakif cond bs s = .ok (bs', s')) :
+    s'.resolution = s.resolution := by
+  obtain ⟨c, nc, s1, _, hn, hw⟩ := bBreakif_ok h
+  rw [bWhileNext_res hw, (boolNot_val hn).1.res]
+
+theorem bEnd_res {bs bs' : BSt} {s s' : St} (h : bEndif bs s = .ok (bs', s') ∨ bEndwhile bs s = .ok (bs', s')) :
+    s'.resolution = s.resolution := by
+  obtain ⟨ctx, rest, bv', _, _, hcase⟩ := bEnd_ok h
+  rcases hcase with ⟨_, he⟩ | ⟨_, ctx', he⟩
+  · obtain ⟨ctx1, bv1, hx, _, _⟩ := ifEnd_ok he
+    exact exit_res hx
+  · exact exit_res (whileExit_ok he).1
+
+theorem bPush_res {cond : Val} {bs bs' : BSt} {s s' : St}
+    (h : bIf cond bs s = .ok (bs', s') ∨ bWhilePush cond bs s = .ok (bs', s')) : s'.resolution = s.resolution := by
+  rcases h with h | h
+  · obtain ⟨c, ctx, _, hn, _⟩ := bIf_ok h
+    exact ifNew_res hn
+  · obtain ⟨c, ctx, _, hn, _⟩ := bWhilePush_ok h
+    exact whileNew_res hn
+
+theorem bElse_res {bs bs' : BSt} {s s' : St} (h : bElse bs s = .ok (bs', s')) : s'.resolution = s.resolution := by
+  obtain ⟨ctx, rest, ctx', bv', _, _, he, _⟩ := bElse_ok h
+  obtain ⟨ctx1, s1, ic, ctx2, hx, _, hen, _⟩ := ifElse_ok he
+  rw [enter_res hen, exit_res hx]
+
+theorem bElif_res {thunk : BV → M Val} {bs bs' : BSt} {s s' : St}
+    (hth : ∀ bv t v t', thunk bv t = .ok (v, t') → t'.resolution = t.resolution)
+    (h : bElif thunk bs s = .ok (bs', s')) : s'.resolution = s.resolution := by
+  obtain ⟨ctx, rest, ctx', bv', _, _, he, _⟩ := bElif_ok h
+  obtain ⟨ctx1, s1, nw, s2, ic, nn, s3, nwic, s4, cc, s5, ctx2, hx, ht, _, hnn, hnwic, hcc, hen, _⟩ := ifElif_ok he
+  rw [enter_res hen, (andBB_val hcc).1.res, (andBB_val hnwic).1.res, (boolNot_val hnn).1.res, hth _ _ _ _ ht, exit_res hx]
+
+/-! ## expressions -/
+
+theorem binS_ok {op : Val → Val → M Val} {ok : Val → Val → Bool} {x y t : TVal} {n n' : Nat} {s s' : St}
+    (h : binS op ok x y n s = .ok ((t, n'), s')) :
+    ∃ a b v o, x = .leaf a ∧ y = .leaf b ∧ ok a.toVal b.toVal = true ∧ op a.toVal b.toVal s = .ok (v, s') ∧
+      SVal.ofVal v n = some o ∧ t = .leaf o ∧ n' = n + 1 := by
+  unfold binS at h
+  split at h
+  · rename_i a b
+    split at h
+    · rename_i hok
+      obtain ⟨v, s1, h1, h2⟩ := bind_ok.mp h
+      obtain ⟨⟨o, n1⟩, s2, h3, h4⟩ := bind_ok.mp h2
+      obtain ⟨h5, rfl⟩ := pure_ok' h4
+      simp only [Prod.mk.injEq] at h5
+      obtain ⟨rfl, rfl⟩ := h5
+      obtain ⟨h6, h7, rfl⟩ := freshS_ok h3
+      exact ⟨a, b, v, o, rfl, rfl, hok, h1, h6, rfl, h7⟩
+    · exact (raise_ok.mp h).elim
+  · exact (raise_ok.mp h).elim
+
+theorem notS_ok {x t : TVal} {n n' : Nat} {s s' : St} (h : notS x n s = .ok ((t, n'), s')) :
+    ∃ l id r, x = .leaf (.sc .bool l id) ∧ boolNot l s = .ok (r, s') ∧ t = .leaf (.sc .bool r (some n)) ∧ n' = n + 1 := by
+  unfold notS at h
+  split at h
+  · rename_i l id
+    obtain ⟨r, s1, h1, h2⟩ := bind_ok.mp h
+    obtain ⟨h3, rfl⟩ := pure_ok' h2
+    simp only [Prod.mk.injEq] at h3
+    exact ⟨l, id, r, rfl, h1, h3.1.symm, h3.2.symm⟩
+  · exact (raise_ok.mp h).elim
+
+theorem bothBool_ok {a b : Val} (h : bothBool a b = true) : ∃ x y, a = .lcb x ∧ b = .lcb y := by
+  cases a <;> cases b <;> first | exact (Bool.false_ne_true h).elim | exact ⟨_, _, rfl, rfl⟩
+
+mutual
+theorem evalE_same {env : BEnv} {vals : Vals} : ∀ (e : BExpr) {n n' : Nat} {t : TVal} {s s' : St},
+    evalE env vals e n s = .ok ((t, n'), s') → Same s s'
+  | .var x, n, n', t, s, s', h => by
+    unfold evalE at h
+    cases hg : vals.get? x with
+    | none => simp only [hg] at h; exact (raise_ok.mp h).elim
+    | some o => simp only [hg] at h; obtain ⟨_, rfl⟩ := pure_ok' h; exact Same.refl _
+  | .inp i, n, n', t, s, s', h => by
+    unfold evalE at h
+    cases hg : env.inputs[i]? with
+    | none => simp only [hg] at h; exact (raise_ok.mp h).elim
+    | some o => simp only [hg] at h; obtain ⟨_, rfl⟩ := pure_ok' h; exact Same.refl _
+  | .finp i, n, n', t, s, s', h => by
+    unfold evalE at h
+    cases hg : env.finputs[i]? with
+    | none => simp only [hg] at h; exact (raise_ok.mp h).elim
+    | some o => simp only [hg] at h; obtain ⟨_, rfl⟩ := pure_ok' h; exact Same.refl _
+  | .const c, n, n', t, s, s', h => by
+    unfold evalE at h
+    obtain ⟨_, rfl⟩ := pure_ok' h; exact Same.refl _
+  | .loopvar v, n, n', t, s, s', h => by
+    unfold evalE at h
+    cases hg : lookupLv env.lvs v with
+    | none => simp only [hg] at h; exact (raise_ok.mp h).elim
+    | some o => simp only [hg] at h; obtain ⟨_, rfl⟩ := pure_ok' h; exact Same.refl _
+  | .add a b, n, n', t, s, s', h => by
+    unfold evalE at h
+    obtain ⟨⟨x, n1⟩, s1, h1, h⟩ := bind_ok.mp h
+    obtain ⟨⟨y, n2⟩, s2, h2, h⟩ := bind_ok.mp h
+    obtain ⟨p, q, v, o, _, _, _, hop, _, _, _⟩ := binS_ok h
+    obtain ⟨rfl, _⟩ := addV_rep p.toVal_isS q.toVal_isS hop
+    exact (evalE_same a h1).trans (evalE_same b h2)
+  | .sub a b, n, n', t, s, s', h => by
+    unfold evalE at h
+    obtain ⟨⟨x, n1⟩, s1, h1, h⟩ := bind_ok.mp h
+    obtain ⟨⟨y, n2⟩, s2, h2, h⟩ := bind_ok.mp h
+    obtain ⟨p, q, v, o, _, _, _, hop, _, _, _⟩ := binS_ok h
+    obtain ⟨rfl, _⟩ := subV_rep p.toVal_isS q.toVal_isS hop
+    exact (evalE_same a h1).trans (evalE_same b h2)
+  | .mul a b, n, n', t, s, s', h => by
+    unfold evalE at h
+    obtain ⟨⟨x, n1⟩, s1, h1, h⟩ := bind_ok.mp h
+    obtain ⟨⟨y, n2⟩, s2, h2, h⟩ := bind_ok.mp h
+    obtain ⟨p, q, v, o, _, _, hok, hop, _, _, _⟩ := binS_ok h
+    exact ((evalE_same a h1).trans (evalE_same b h2)).trans (mulV_rep p.toVal_isS q.toVal_isS hok hop).1
+  | .cmp op a b, n, n', t, s, s', h => by
+    unfold evalE at h
+    obtain ⟨⟨x, n1⟩, s1, h1, h⟩ := bind_ok.mp h
+    obtain ⟨⟨y, n2⟩, s2, h2, h⟩ := bind_ok.mp h
+    obtain ⟨p, q, v, o, _, _, hok, hop, _, _, _⟩ := binS_ok h
+    exact ((evalE_same a h1).trans (evalE_same b h2)).trans (cmpV_rep hok hop).1
+  | .not a, n, n', t, s, s', h => by
+    unfold evalE at h
+    obtain ⟨⟨x, n1⟩, s1, h1, h⟩ := bind_ok.mp h
+    obtain ⟨l, id, r, _, hn, _, _⟩ := notS_ok h
+    exact (evalE_same a h1).trans (boolNot_val hn).1
+  | .and a b, n, n', t, s, s', h => by
+    unfold evalE at h
+    obtain ⟨⟨x, n1⟩, s1, h1, h⟩ := bind_ok.mp h
+    obtain ⟨⟨y, n2⟩, s2, h2, h⟩ := bind_ok.mp h
+    obtain ⟨p, q, v, o, _, _, hok, hop, _, _, _⟩ := binS_ok h
+    obtain ⟨x', y', hx', hy'⟩ := bothBool_ok hok
+    rw [hx', hy'] at hop
+    exact ((evalE_same a h1).trans (evalE_same b h2)).trans (bwV_bool (Or.inl rfl) hop).1
+  | .or a b, n, n', t, s, s', h => by
+    unfold evalE at h
+    obtain ⟨⟨x, n1⟩, s1, h1, h⟩ := bind_ok.mp h
+    obtain ⟨⟨y, n2⟩, s2, h2, h⟩ := bind_ok.mp h
+    obtain ⟨p, q, v, o, _, _, hok, hop, _, _, _⟩ := binS_ok h
+    obtain ⟨x', y', hx', hy'⟩ := bothBool_ok hok
+    rw [hx', hy'] at hop
+    exact ((evalE_same a h1).trans (evalE_same b h2)).trans (bwV_bool (Or.inr rfl) hop).1
+  | .list es, n, n', t, s, s', h => by
+    unfold evalE at h
+    obtain ⟨⟨ts, n1⟩, s1, h1, h⟩ := bind_ok.mp h
+    obtain ⟨_, rfl⟩ := pure_ok' h
+    exact evalEs_same es h1
+  | .item e i, n, n', t, s, s', h => by
+    unfold evalE at h
+    obtain ⟨⟨u, n1⟩, s1, h1, h⟩ := bind_ok.mp h
+    have : s' = s1 := by
+      cases u with
+      | leaf a => exact (raise_ok.mp h).elim
+      | node ts =>
+        dsimp only at h
+        cases hg : ts[i]? with
+        | none => simp only [hg] at h; exact (raise_ok.mp h).elim
+        | some w => simp only [hg] at h; obtain ⟨_, rfl⟩ := pure_ok' h; rfl
+    rw [this]
+    exact evalE_same e h1
+theorem evalEs_same {env : BEnv} {vals : Vals} : ∀ (es : BExprs) {n n' : Nat} {ts : List TVal} {s s' : St},
+    evalEs env vals es n s = .ok ((ts, n'), s') → Same s s'
+  | .nil, n, n', ts, s, s', h => by
+    unfold evalEs at h
+    obtain ⟨_, rfl⟩ := pure_ok' h; exact Same.refl _
+  | .cons e es, n, n', ts, s, s', h => by
+    unfold evalEs at h
+    obtain ⟨⟨u, n1⟩, s1, h1, h⟩ := bind_ok.mp h
+    obtain ⟨⟨us, n2⟩, s2, h2, h⟩ := bind_ok.mp h
+    obtain ⟨_, rfl⟩ := pure_ok' h
+    exact (evalE_same e h1).trans (evalEs_same es h2)
+end
+
+theorem evalC_ok {env : BEnv} {bv : BV} {c : BCond} {v : Val} {s s' : St} (h : evalC env bv c s = .ok (v, s')) :
+    ∃ o n', evalE env bv.vals c bv.next s = .ok ((.leaf o, n'), s') ∧ v = o.toVal := by
+  unfold evalC at h
+  obtain ⟨⟨t, n1⟩, s1, h1, h⟩ := bind_ok.mp h
+  cases t with
+  | leaf o =>
     obtain ⟨rfl, rfl⟩ := pure_ok' h
-    exact ⟨rfl, fun y hy => by simp only [has_set, hy, Bool.or_true]⟩
-  | none =>
-    simp only [hl] at h
-    exact bindNew_struct h
+    exact ⟨o, n1, h1, rfl⟩
+  | node ts => exact (raise_ok.mp h).elim
+
+theorem evalC_same {env : BEnv} {bv : BV} {c : BCond} {v : Val} {s s' : St} (h : evalC env bv c s = .ok (v, s')) :
+    Same s s' := by
+  obtain ⟨o, n', he, _⟩ := evalC_ok h
+  exact evalE_same c he
+
+theorem guardedM_res {α : Type} {c : LinComb} {m : M α} {a : α} {s s' : St}
+    (hm : ∀ t b t', m t = .ok (b, t') → t'.resolution = t.resolution)
+    (h : guardedM c m s = .ok (a, s')) : s'.resolution = s.resolution := by
+  unfold guardedM at h
+  obtain ⟨bak, s1, h1, h⟩ := bind_ok.mp h
+  obtain ⟨b, s2, h2, h⟩ := bind_ok.mp h
+  obtain ⟨u, s3, h3, h⟩ := bind_ok.mp h
+  obtain ⟨_, rfl⟩ := pure_ok' h
+  rw [restoreGuard_res h3, hm _ _ _ h2, addGuard_res h1]
+
+theorem iteVals_same {c : LinComb} {tv fv r : TVal} {n n' : Nat} {s s' : St}
+    (h : iteVals c tv fv n s = .ok ((r, n'), s')) : Same s s' := by
+  unfold iteVals at h
+  split at h
+  · rename_i a b
+    obtain ⟨v, s1, h1, h⟩ := bind_ok.mp h
+    obtain ⟨⟨o, n1⟩, s2, h2, h⟩ := bind_ok.mp h
+    obtain ⟨_, rfl⟩ := pure_ok' h
+    obtain ⟨_, _, rfl⟩ := freshS_ok h2
+    exact (iteScalar_rep a.toVal_isS b.toVal_isS h1).1
+  · exact mergeT_same h
+
+theorem iteThunks_res {env : BEnv} {vals : Vals} {c : LinComb} {t f : BExpr} {n n' : Nat} {r : TVal} {s s' : St}
+    (h : iteThunks c (evalE env vals t) (evalE env vals f) n s = .ok ((r, n'), s')) :
+    s'.resolution = s.resolution := by
+  unfold iteThunks at h
+  obtain ⟨⟨tv, n1⟩, s1, h1, h⟩ := bind_ok.mp h
+  obtain ⟨nc, s2, h2, h⟩ := bind_ok.mp h
+  obtain ⟨⟨fv, n2⟩, s3, h3, h⟩ := bind_ok.mp h
+  rw [(iteVals_same h).res, guardedM_res (fun _ _ _ hh => (evalE_same f hh).res) h3, (boolNot_val h2).1.res,
+    guardedM_res (fun _ _ _ hh => (evalE_same t hh).res) h1]
+
+theorem bindT_ok {x : Nat} {t : TVal} {n : Nat} {bs bs' : BSt} {s s' : St} (h : bindT x t n bs s = .ok (bs', s')) :
+    t.isSecret = true ∧ bs' = { bs with bv := { vals := bs.bv.vals.set x t, next := n } } ∧ s' = s := by
+  unfold bindT at h
+  split at h
+  · rename_i hs
+    obtain ⟨rfl, rfl⟩ := pure_ok' h
+    exact ⟨hs, rfl, rfl⟩
+  · exact (raise_ok.mp h).elim
+
+theorem bindT_struct {x : Nat} {t : TVal} {n : Nat} {bs bs' : BSt} {s s' : St} (h : bindT x t n bs s = .ok (bs', s')) :
+    (bs'.stack = bs.stack ∧ ∀ y, bs.bv.vals.has y = true → bs'.bv.vals.has y = true) ∧ s' = s := by
+  obtain ⟨_, rfl, rfl⟩ := bindT_ok h
+  exact ⟨⟨rfl, fun y hy => by simp only [has_set, hy, Bool.or_true]⟩, rfl⟩
+
+/-- what every completed statement leaves as it was: the stack, the bound names, the resolution -/
+def Struct (bs bs' : BSt) (s s' : St) : Prop :=
+  (bs'.stack = bs.stack ∧ ∀ x, bs.bv.vals.has x = true → bs'.bv.vals.has x = true) ∧ s'.resolution = s.resolution
+
+theorem breakStep_res {env : BEnv} {brk : Option BCond} {bs bs' : BSt} {s s' : St}
+    (h : breakStep env brk bs s = .ok (bs', s')) : s'.resolution = s.resolution := by
+  unfold Pysnark.breakStep at h
+  cases brk with
+  | none => obtain ⟨_, rfl⟩ := pure_ok' h; rfl
+  | some bc =>
+    obtain ⟨bcv, t4, h1, h⟩ := bind_ok.mp h
+    rw [bBreakif_res h, (evalC_same h1).res]
 
 mutual
 theorem execStmt_struct : ∀ (st : BStmt) (env : BEnv) (bs bs' : BSt) (s s' : St),
-    execStmt env st bs s = .ok (bs', s') →
-    bs'.stack = bs.stack ∧ ∀ x, bs.bv.vals.has x = true → bs'.bv.vals.has x = true
+    execStmt env st bs s = .ok (bs', s') → Struct bs bs' s s'
   | .assign x e, env, bs, bs', s, s', h => by
     unfold execStmt at h
-    obtain ⟨v, s1, _, h2⟩ := bind_ok.mp h
-    exact bindVar_struct h2
+    obtain ⟨⟨t, n⟩, s1, h1, h2⟩ := bind_ok.mp h
+    obtain ⟨hst, rfl⟩ := bindT_struct h2
+    exact ⟨hst, (evalE_same e h1).res⟩
+  | .setitem x path e, env, bs, bs', s, s', h => by
+    unfold execStmt at h
+    obtain ⟨⟨t, n⟩, s1, h1, h2⟩ := bind_ok.mp h
+    dsimp only at h2
+    cases hg : bs.bv.vals.get? x with
+    | none => simp only [hg] at h2; exact (raise_ok.mp h2).elim
+    | some old =>
+      simp only [hg] at h2
+      cases hs : old.set path t with
+      | none => simp only [hs] at h2; exact (raise_ok.mp h2).elim
+      | some new =>
+        simp only [hs] at h2
+        obtain ⟨hst, rfl⟩ := bindT_struct h2
+        exact ⟨hst, (evalE_same e h1).res⟩
+  | .sel x c t f, env, bs, bs', s, s', h => by
+    unfold execStmt at h
+    obind h with cv, s1, h1
+    obind h with ⟨tv, n1⟩, s2, h2
+    obind h with ⟨fv, n2⟩, s3, h3
+    obind h with cl, s4, h4
+    obtain ⟨_, rfl⟩ := condLC_ok h4
+    obind h with ⟨r, n3⟩, s5, h5
+    obtain ⟨hst, rfl⟩ := bindT_struct h
+    exact ⟨hst, by rw [(mergeT_same h5).res, (evalE_same f h3).res, (evalE_same t h2).res, (evalC_same h1).res]⟩
   | .ite x c t f, env, bs, bs', s, s', h => by
     unfold execStmt at h
-    obtain ⟨cv, s1, _, h⟩ := bind_ok.mp h
-    obtain ⟨cl, s2, _, h⟩ := bind_ok.mp h
-    obtain ⟨r, s3, _, h⟩ := bind_ok.mp h
-    exact bindNew_struct h
+    obind h with cv, s1, h1
+    obind h with cl, s2, h2
+    obtain ⟨_, rfl⟩ := condLC_ok h2
+    obind h with ⟨r, n3⟩, s3, h3
+    obtain ⟨hst, rfl⟩ := bindT_struct h
+    exact ⟨hst, by rw [iteThunks_res h3, (evalC_same h1).res]⟩
   | .ifs c body rest, env, bs, bs', s, s', h => by
     unfold execStmt at h
-    obtain ⟨cv, s1, _, h⟩ := bind_ok.mp h
+    obtain ⟨cv, s1, h0, h⟩ := bind_ok.mp h
     obtain ⟨bs1, s2, h1, h⟩ := bind_ok.mp h
     obtain ⟨bs2, s3, h2, h⟩ := bind_ok.mp h
     obtain ⟨hbv, ctx, hs1, hc⟩ := TopDom.push (Or.inl h1)
-    obtain ⟨hst, hdom⟩ := execBlock_struct body env bs1 bs2 s2 s3 h2
+    obtain ⟨⟨hst, hdom⟩, hr2⟩ := execBlock_struct body env bs1 bs2 s2 s3 h2
     have htop : TopDom (fun x => bs.bv.vals.has x = true) bs.stack bs2 :=
       ⟨ctx, by rw [hst, hs1], hc.mono hdom⟩
-    exact execIfRest_struct rest env bs2 bs' s3 s' _ _ htop h
+    obtain ⟨hst3, hr3⟩ := execIfRest_struct rest env bs2 bs' s3 s' _ _ htop h
+    exact ⟨hst3, by rw [hr3, hr2, bPush_res (Or.inl h1), (evalC_same h0).res]⟩
   | .forr lv bound mx body, env, bs, bs', s, s', h => by
     unfold execStmt at h
-    obtain ⟨stop, s1, _, h⟩ := bind_ok.mp h
+    obtain ⟨stop, s1, h0, h⟩ := bind_ok.mp h
     cases stop <;> first | exact (raise_ok.mp h).elim | skip
     dsimp only at h
-    obtain ⟨c0, s2, _, h⟩ := bind_ok.mp h
+    obtain ⟨c0, s2, hc0, h⟩ := bind_ok.mp h
     obtain ⟨bs1, s3, h1, h⟩ := bind_ok.mp h
     obtain ⟨bs2, s4, h2, h⟩ := bind_ok.mp h
     obtain ⟨bs3, s5, h3, h⟩ := bind_ok.mp h
     obtain ⟨hbv, ctx, hs1, hc⟩ := TopDom.push (Or.inr h1)
-    obtain ⟨hst, hdom⟩ := execBlock_struct body _ bs1 bs2 s3 s4 h2
-    have htop : TopDom (fun x => bs.bv.vals.has x = true) bs.stack bs2 :=
-      ⟨ctx, by rw [hst, hs1], hc.mono hdom⟩
-    have htop3 : TopDom (fun x => bs.bv.vals.has x = true) bs.stack bs3 := by
-      refine iterM_inv (fun b _ => TopDom (fun x => bs.bv.vals.has x = true) bs.stack b) _ ?_ _ _ _ _ _ _ htop h3
+    obtain ⟨⟨hst, hdom⟩, hr2⟩ := execBlock_struct body _ bs1 bs2 s3 s4 h2
+    have hrc0 : s2.resolution = s1.resolution := (cmpV_int_all (x := .int 0) (y := .lc _) trivial trivial hc0).1.res
+    have htop : TopDom (fun x => bs.bv.vals.has x = true) bs.stack bs2 ∧ s4.resolution = s.resolution :=
+      ⟨⟨ctx, by rw [hst, hs1], hc.mono hdom⟩, by rw [hr2, bPush_res (Or.inr h1), hrc0, (evalC_same h0).res]⟩
+    have htop3 : TopDom (fun x => bs.bv.vals.has x = true) bs.stack bs3 ∧ s5.resolution = s.resolution := by
+      refine iterM_inv (fun b t => TopDom (fun x => bs.bv.vals.has x = true) bs.stack b ∧ t.resolution = s.resolution)
+        _ ?_ _ _ _ _ _ _ htop h3
       intro i b t b' t' hp hstep
       unfold forRound at hstep
-      obtain ⟨cc, t1, _, hstep⟩ := bind_ok.mp hstep
+      obtain ⟨cc, t1, hcc, hstep⟩ := bind_ok.mp hstep
       obtain ⟨b1, t2, hw, hstep⟩ := bind_ok.mp hstep
-      obtain ⟨ctx1, hs', hc'⟩ := hp.whileNext hw
-      obtain ⟨hst', hdom'⟩ := execBlock_struct body _ b1 b' t2 t' hstep
-      exact ⟨ctx1, by rw [hst', hs'], hc'.mono hdom'⟩
-    exact htop3.end_ (Or.inr h)
+      obtain ⟨ctx1, hs', hc'⟩ := hp.1.whileNext hw
+      obtain ⟨⟨hst', hdom'⟩, hr'⟩ := execBlock_struct body _ b1 b' t2 t' hstep
+      exact ⟨⟨ctx1, by rw [hst', hs'], hc'.mono hdom'⟩,
+        by rw [hr', bWhileNext_res hw, (cmpV_int_all (x := .int _) (y := .lc _) trivial trivial hcc).1.res, hp.2]⟩
+    exact ⟨htop3.1.end_ (Or.inr h), by rw [bEnd_res (Or.inr h), htop3.2]⟩
   | .whil c mx body brk, env, bs, bs', s, s', h => by
     unfold execStmt at h
-    obtain ⟨c0, s1, _, h⟩ := bind_ok.mp h
+    obtain ⟨c0, s1, h0, h⟩ := bind_ok.mp h
     obtain ⟨bs1, s2, h1, h⟩ := bind_ok.mp h
     obtain ⟨bs2, s3, h2, h⟩ := bind_ok.mp h
     obtain ⟨hbv, htop⟩ := TopDom.push (Or.inr h1)
-    have htop2 : TopDom (fun x => bs.bv.vals.has x = true) bs.stack bs2 := by
-      refine iterM_inv (fun b _ => TopDom (fun x => bs.bv.vals.has x = true) bs.stack b) _ ?_ _ _ _ _ _ _ htop h2
+    have htop1 : TopDom (fun x => bs.bv.vals.has x = true) bs.stack bs1 ∧ s2.resolution = s.resolution :=
+      ⟨htop, by rw [bPush_res (Or.inr h1), (evalC_same h0).res]⟩
+    have htop2 : TopDom (fun x => bs.bv.vals.has x = true) bs.stack bs2 ∧ s3.resolution = s.resolution := by
+      refine iterM_inv (fun b t => TopDom (fun x => bs.bv.vals.has x = true) bs.stack b ∧ t.resolution = s.resolution)
+        _ ?_ _ _ _ _ _ _ htop1 h2
       intro i b t b' t' hp hstep
       unfold whileRound at hstep
       obtain ⟨b1, t1, hb, hstep⟩ := bind_ok.mp hstep
       obtain ⟨b2, t2, hbr, hstep⟩ := bind_ok.mp hstep
-      obtain ⟨cn, t3, _, hstep⟩ := bind_ok.mp hstep
-      obtain ⟨ctx1, hs', hc'⟩ := hp
-      obtain ⟨hst', hdom'⟩ := execBlock_struct body env b b1 t t1 hb
+      obtain ⟨cn, t3, hcn, hstep⟩ := bind_ok.mp hstep
+      obtain ⟨ctx1, hs', hc'⟩ := hp.1
+      obtain ⟨⟨hst', hdom'⟩, hr'⟩ := execBlock_struct body env b b1 t t1 hb
       have hp1 : TopDom (fun x => bs.bv.vals.has x = true) bs.stack b1 := ⟨ctx1, by rw [hst', hs'], hc'.mono hdom'⟩
-      exact (hp1.breakStep hbr).whileNext hstep
-    exact htop2.end_ (Or.inr h)
+      exact ⟨(hp1.breakStep hbr).whileNext hstep,
+        by rw [bWhileNext_res hstep, (evalC_same hcn).res, breakStep_res hbr, hr', hp.2]⟩
+    exact ⟨htop2.1.end_ (Or.inr h), by rw [bEnd_res (Or.inr h), htop2.2]⟩
 
 theorem execBlock_struct : ∀ (b : BBlock) (env : BEnv) (bs bs' : BSt) (s s' : St),
-    execBlock env b bs s = .ok (bs', s') →
-    bs'.stack = bs.stack ∧ ∀ x, bs.bv.vals.has x = true → bs'.bv.vals.has x = true
+    execBlock env b bs s = .ok (bs', s') → Struct bs bs' s s'
   | .nil, env, bs, bs', s, s', h => by
     unfold execBlock at h
     obtain ⟨rfl, rfl⟩ := pure_ok' h
-    exact ⟨rfl, fun _ hx => hx⟩
+    exact ⟨⟨rfl, fun _ hx => hx⟩, rfl⟩
   | .cons st rest, env, bs, bs', s, s', h => by
     unfold execBlock at h
     obtain ⟨bs1, s1, h1, h2⟩ := bind_ok.mp h
-    obtain ⟨a1, b1⟩ := execStmt_struct st env bs bs1 s s1 h1
-    obtain ⟨a2, b2⟩ := execBlock_struct rest env bs1 bs' s1 s' h2
-    exact ⟨a2.trans a1, fun x hx => b2 x (b1 x hx)⟩
+    obtain ⟨⟨a1, b1⟩, r1⟩ := execStmt_struct st env bs bs1 s s1 h1
+    obtain ⟨⟨a2, b2⟩, r2⟩ := execBlock_struct rest env bs1 bs' s1 s' h2
+    exact ⟨⟨a2.trans a1, fun x hx => b2 x (b1 x hx)⟩, r2.trans r1⟩
 
 theorem execIfRest_struct : ∀ (rest : BIfRest) (env : BEnv) (bs bs' : BSt) (s s' : St) (D : Nat → Prop)
     (stk : List BCtx), TopDom D stk bs → execIfRest env rest bs s = .ok (bs', s') →
-    bs'.stack = stk ∧ ∀ x, D x → bs'.bv.vals.has x = true
+    (bs'.stack = stk ∧ ∀ x, D x → bs'.bv.vals.has x = true) ∧ s'.resolution = s.resolution
   | .endif, env, bs, bs', s, s', D, stk, hd, h => by
     unfold execIfRest at h
-    exact hd.end_ (Or.inl h)
+    exact ⟨hd.end_ (Or.inl h), bEnd_res (Or.inl h)⟩
   | .els b, env, bs, bs', s, s', D, stk, hd, h => by
     unfold execIfRest at h
     obtain ⟨bs1, s1, h1, h3⟩ := bind_ok.mp h
     obtain ⟨bs2, s2, h2, h4⟩ := bind_ok.mp h3
     clear h h3
+    have hres1 := bElse_res h1
     obtain ⟨ctx0, hs0, hc⟩ := hd
     obtain ⟨ctx, rest, ctx', bv', hs, _, he, rfl⟩ := bElse_ok h1
     rw [hs0] at hs; cases hs
     obtain ⟨ctx1, t1, ic, ctx2, hx, _, hen, rfl⟩ := ifElse_ok he
     obtain ⟨hv, hn⟩ := hc.exit hx
     have hc2 := ChainDom.enter hv hn hen
-    obtain ⟨hst, hdom⟩ := execBlock_struct b env _ bs2 s1 s2 h2
+    obtain ⟨⟨hst, hdom⟩, hr2⟩ := execBlock_struct b env _ bs2 s1 s2 h2
     have htop : TopDom D stk bs2 := ⟨_, hst, ⟨(hc2.mono hdom).vals, hc2.bak, hc2.nd⟩⟩
-    exact htop.end_ (Or.inl h4)
+    exact ⟨htop.end_ (Or.inl h4), by rw [bEnd_res (Or.inl h4), hr2, hres1]⟩
   | .elif c b rest, env, bs, bs', s, s', D, stk, hd, h => by
     unfold execIfRest at h
     obtain ⟨bs1, s1, h1, h3⟩ := bind_ok.mp h
     obtain ⟨bs2, s2, h2, h4⟩ := bind_ok.mp h3
     clear h h3
+    have hres1 := bElif_res (fun bv t v t' ht => (evalC_same ht).res) h1
     obtain ⟨ctx0, hs0, hc⟩ := hd
     obtain ⟨ctx, rest', ctx', bv', hs, _, he, rfl⟩ := bElif_ok h1
     rw [hs0] at hs; cases hs
     obtain ⟨ctx1, t1, nw, t2, ic, nn, t3, nwic, t4, cc, t5, ctx2, hx, _, _, _, _, _, hen, rfl⟩ := ifElif_ok he
     obtain ⟨hv, hn⟩ := hc.exit hx
     have hc2 := ChainDom.enter hv hn hen
-    obtain ⟨hst, hdom⟩ := execBlock_struct b env _ bs2 s1 s2 h2
+    obtain ⟨⟨hst, hdom⟩, hr2⟩ := execBlock_struct b env _ bs2 s1 s2 h2
     have htop : TopDom D stk bs2 := ⟨_, hst, ⟨(hc2.mono hdom).vals, hc2.bak, hc2.nd⟩⟩
-    exact execIfRest_struct rest env bs2 bs' s2 s' D stk htop h4
+    obtain ⟨hst3, hr3⟩ := execIfRest_struct rest env bs2 bs' s2 s' D stk htop h4
+    exact ⟨hst3, by rw [hr3, hr2, hres1]⟩
 end
 
 end Pysnark
